@@ -14,19 +14,19 @@ abbrev Dur := Int
 
 /-- `time.Time.Round(d)`: nearest multiple of `d` since the zero time, halves up;
     `d <= 0` returns the time unchanged. -/
-def goRound (t : Time) (d : Dur) : Time :=
+def goRound (t : Int) (d : Int) : Int :=
   if d ≤ 0 then t
   else
     let r := t % d
     if r + r < d then t - r else t + (d - r)
 
 /-- encoding.RoundTimeUp -/
-def roundUp (t : Time) (res : Dur) : Time :=
+def roundUp (t : Int) (res : Int) : Int :=
   let rounded := goRound t res
   if rounded < t then rounded + res else rounded
 
 /-- encoding.RoundTimeDown -/
-def roundDown (t : Time) (res : Dur) : Time :=
+def roundDown (t : Int) (res : Int) : Int :=
   let rounded := goRound t res
   if rounded > t then rounded - res else rounded
 
@@ -34,13 +34,13 @@ def roundDown (t : Time) (res : Dur) : Time :=
 def cdiv (x r : Int) : Int := -((-x) / r)
 
 /-- encoding.RoundTimeUntilUp -/
-def roundUntilUp (t : Time) (res : Dur) (hi : Time) : Time :=
+def roundUntilUp (t : Int) (res : Int) (hi : Int) : Int :=
   if t = 0 then t
   else if hi = 0 then roundUp t res
   else hi - ((hi - t) / res) * res
 
 /-- encoding.RoundTimeUntilDown -/
-def roundUntilDown (t : Time) (res : Dur) (hi : Time) : Time :=
+def roundUntilDown (t : Int) (res : Int) (hi : Int) : Int :=
   if t = 0 then t
   else if hi = 0 then roundDown t res
   else hi - (cdiv (hi - t) res) * res
